@@ -214,15 +214,17 @@ def rp3(ctx):
         return
     (edge, region) = arms['AppendRecords']
     n = 0
-    gates = [(te, fe, cs) for (bi, c, te, fe, cs) in b.switches_on_call(lambda c: c.node is not None and not ctx.E.call_may(c, 'MEM') and c.path.startswith('mem::queues::MemQueues::') and c.body.local_ty(c.dest_local() or 0) == 'bool') if cs.point in region]
-    for cs in b.calls:
-        if cs.point not in region or cs.node is None:
+    from rules_misc import expand_arm_sites
+    for (host, cs, _res) in expand_arm_sites(ctx, b, region):
+        if cs.node is None:
             continue
         cb = ctx.f.bodies[cs.node]
         if cb.path.startswith('mem::queues::MemQueues::') and cb.arg_count == 3 and cb.local_ty(3) == 'u64' and cb.ret_ty == '()':
             n += 1
-            ok = any(b.edge_dominates(fe, cs.point) and cs.point not in b.reach([te[1]], avoid=[cs0.point]) for (te, fe, _g) in gates)
-            ctx.check(ok, 'append-arm:realign-only-if-unknown', where(b, cs.point), 're-alignment on the `queue unknown` edge only',
+            gates = [(te, fe, g) for (bi, c, te, fe, g) in host.switches_on_call(lambda c: c.node is not None and not ctx.E.call_may(c, 'MEM') and c.path.startswith('mem::queues::MemQueues::') and c.body.local_ty(c.dest_local() or 0) == 'bool') if host is not b or g.point in region]
+            stop = [cs0.point] if host is b else []
+            ok = any(host.edge_dominates(fe, cs.point) and cs.point not in host.reach([te[1]], avoid=stop) for (te, fe, _g) in gates)
+            ctx.check(ok, 'append-arm:realign-only-if-unknown', where(host, cs.point), 're-alignment on the `queue unknown` edge only',
                       'replaying an append re-aligns (resets) the queue even when it is already known: every replayed batch would wipe the records replayed before it')
     if n == 0:
         ctx.missing('realign', 'no re-alignment call in the AppendRecords replay arm')
